@@ -4,6 +4,7 @@ R19.1  exact-rational moment conditions of every stencil row (tables folded from
 R19.2  bound safety of the row selection (the row selector of helpers.derivative as a function of the distance to the bounds)
 R19.3  pairing: position/coefficient tables, common selector, power of the step, stencil axis
 R19.4  EffectivePotential.derivT bounds the temperature derivative below by 0
+R19.5  positions and coefficients are built from one exactly representable step h = (x + h) - x (def-use chains)
 
 How the code is recognised (spelling independent): helpers.derivative / gradient / hessian are *evaluated* by `_Ex19`, a term
 extractor with decided numeric comparisons (n and order are fixed per run) that keeps table accesses as TABV(table, selectors...).
@@ -747,6 +748,100 @@ def r19_4(chk: Check) -> None:
     chk.floor("R19.4", 3)
 
 
+def r19_5(chk: Check) -> None:
+    """The three routines replace the nominal step by the exactly representable one, `(x + dx) - x`, before they build the stencil.  In floating
+    point the two differ by O(ulp(x)); positions and coefficients must both use the exact step -- positions at x + k*h_exact combined with
+    coefficients c/h_nominal scale every derivative by h_exact/h_nominal, which is not exact even on linear functions.  Decided on the
+    def-use chains: every step-derived local read by a statement that reads a position or coefficient table is defined through the
+    exact-step assignment."""
+    from ..flow import CFG
+    from ..core import own_nodes
+    S = chk.src
+    cnt = 0
+    for fname in ("derivative", "gradient", "hessian"):
+        fi = S.func(f"helpers:{fname}")
+        chk.touch(fi.name)
+        g = CFG(fi.node)
+        params = set(fi.params())
+        step_params = params & {"dx", "scale", "epsilon"}
+
+        def rd(at, nm):
+            return [d for d in g.reaching_defs(at, nm) if d is not CFG.ENTRY]
+
+        def loads(e):
+            return [x for x in ast.walk(e) if isinstance(x, ast.Name) and isinstance(x.ctx, ast.Load)]
+
+        def is_exact(d) -> bool:
+            """d is `h = (x + h0) - x` (possibly with the sum held in a temporary)"""
+            if not isinstance(d, ast.Assign) or not isinstance(d.value, ast.BinOp) or not isinstance(d.value.op, ast.Sub) or not isinstance(d.value.right, ast.Name):
+                return False
+            X, left = d.value.right.id, d.value.left
+            if isinstance(left, ast.Name):
+                ds = rd(d, left.id)
+                if len(ds) != 1 or not isinstance(ds[0], ast.Assign):
+                    return False
+                left = ds[0].value
+            return isinstance(left, ast.BinOp) and isinstance(left.op, ast.Add) and any(isinstance(o, ast.Name) and o.id == X for o in (left.left, left.right))
+
+        memo: dict = {}
+
+        def derived(d, depth=0) -> bool:
+            """the value defined by d depends on the step parameters"""
+            if not isinstance(d, (ast.Assign, ast.AugAssign, ast.AnnAssign)) or d.value is None or depth > 10:
+                return False
+            k = ("d", id(d))
+            if k not in memo:
+                memo[k] = False
+                memo[k] = any(x.id in step_params or any(derived(e, depth + 1) for e in rd(d, x.id)) for x in loads(d.value))
+            return memo[k]
+
+        def via_exact(d, depth=0) -> bool:
+            if is_exact(d):
+                return True
+            if not isinstance(d, (ast.Assign, ast.AugAssign, ast.AnnAssign)) or d.value is None or depth > 10:
+                return False
+            if any(x.id in step_params for x in loads(d.value)):
+                return False
+            return all(via_exact(e, depth + 1) for x in loads(d.value) for e in rd(d, x.id) if derived(e))
+
+        exact = [d for d in g.nodes if is_exact(d)]
+        chk.ob("R19.5", fi.where(), f"{fname}(): the step is made exactly representable, h = (x + h) - x, before the stencil is built", len(exact) == 1,
+               f"{len(exact)} such assignments", key=f"{fname}|exact-step")
+        def is_table(nm: str) -> bool:
+            return nm.endswith("_POS") or nm.endswith("_COEFF")
+
+        def tabular(d, depth=0) -> bool:
+            """the value defined by d is (selected from) a stencil table"""
+            if not isinstance(d, (ast.Assign, ast.AnnAssign)) or d.value is None or depth > 6:
+                return False
+            k = ("t", id(d))
+            if k not in memo:
+                memo[k] = False
+                memo[k] = any(is_table(x.id) or any(tabular(e, depth + 1) for e in rd(d, x.id)) for x in loads(d.value))
+            return memo[k]
+
+        users = [st for st in g.nodes if isinstance(st, ast.Assign)
+                 and any(is_table(x.id) or any(tabular(e) for e in rd(st, x.id)) for x in loads(st.value))]
+        bad = []
+        nstep = 0
+        for st in users:
+            for x in loads(st.value):
+                if x.id in step_params:
+                    bad.append(f"line {st.lineno}: reads the parameter `{x.id}` directly")
+                    continue
+                for d in rd(st, x.id):
+                    if derived(d):
+                        nstep += 1
+                        if not via_exact(d):
+                            bad.append(f"line {st.lineno}: `{x.id}` (defined at line {d.lineno}) is the nominal step, not the exact one")
+        cnt += len(users)
+        chk.ob("R19.5", fi.where(), f"{fname}(): positions and coefficients are built from the same, exactly representable step", nstep >= 2 and not bad,
+               "; ".join(sorted(set(bad)))[:300], key=f"{fname}|same-step")
+    if cnt < 8:
+        raise AnchorMissing(f"helpers: only {cnt} statements reading a stencil table found")
+    chk.floor("R19.5", 6)
+
+
 def rules(chk: Check) -> None:
     tabs = chk.stage(_tables, chk)
     if tabs is not None:
@@ -754,3 +849,4 @@ def rules(chk: Check) -> None:
         chk.stage(r19_2, chk, tabs)
     chk.stage(r19_3, chk)
     chk.stage(r19_4, chk)
+    chk.stage(r19_5, chk)
